@@ -6,6 +6,7 @@
      END <script id> <ops> <still valid 0/1>
    The only logic here is splitting lines into numbers and converting between
    decimal text and Coq's binary [N]. *)
+module ZZ = Z   (* zarith; the extracted model defines its own module Z *)
 open Model
 
 let rec pos_of_int (i : int) : positive =
@@ -13,25 +14,25 @@ let rec pos_of_int (i : int) : positive =
   else if i land 1 = 0 then XO (pos_of_int (i lsr 1))
   else XI (pos_of_int (i lsr 1))
 
-let rec pos_of_z (z : Z.t) : positive =
-  if Z.equal z Z.one then XH
-  else if Z.is_even z then XO (pos_of_z (Z.shift_right z 1))
-  else XI (pos_of_z (Z.shift_right z 1))
+let rec pos_of_z (z : ZZ.t) : positive =
+  if ZZ.equal z ZZ.one then XH
+  else if ZZ.is_even z then XO (pos_of_z (ZZ.shift_right z 1))
+  else XI (pos_of_z (ZZ.shift_right z 1))
 
 let n_of_string (s : string) : n =
   match int_of_string_opt s with
   | Some 0 -> N0
   | Some i when i > 0 -> Npos (pos_of_int i)
-  | _ -> let z = Z.of_string s in if Z.sign z = 0 then N0 else Npos (pos_of_z z)
+  | _ -> let z = ZZ.of_string s in if ZZ.sign z = 0 then N0 else Npos (pos_of_z z)
 
-let rec z_of_pos (p : positive) : Z.t =
+let rec z_of_pos (p : positive) : ZZ.t =
   match p with
-  | XH -> Z.one
-  | XO q -> Z.shift_left (z_of_pos q) 1
-  | XI q -> Z.succ (Z.shift_left (z_of_pos q) 1)
+  | XH -> ZZ.one
+  | XO q -> ZZ.shift_left (z_of_pos q) 1
+  | XI q -> ZZ.succ (ZZ.shift_left (z_of_pos q) 1)
 
 let string_of_n (x : n) : string =
-  match x with N0 -> "0" | Npos p -> Z.to_string (z_of_pos p)
+  match x with N0 -> "0" | Npos p -> ZZ.to_string (z_of_pos p)
 
 let rec nat_of_int (i : int) : nat = if i <= 0 then O else S (nat_of_int (i - 1))
 
@@ -46,6 +47,22 @@ let print_reports sid k reps =
       (String.concat " " (List.map string_of_n (enc_report r)))) reps
 
 type anystate = Book of rstate | Envs of estate
+
+(* oracles handed to the agent model: the log-normal sample table written by the
+   harness (T lines) and libm's tanh (the same function Rust's f64::tanh calls) *)
+let ln_table : (string * string, n * n) Hashtbl.t = Hashtbl.create 4096
+let lognormal (k : n) (pos : n) : (n * n) option =
+  Hashtbl.find_opt ln_table (string_of_n k, string_of_n pos)
+
+let z_of_n (x : n) : ZZ.t = match x with N0 -> ZZ.zero | Npos p -> z_of_pos p
+let n_of_z (z : ZZ.t) : n = if ZZ.sign z = 0 then N0 else Npos (pos_of_z z)
+let two64 = ZZ.shift_left ZZ.one 64
+let tanh64 (bits : n) : n =
+  let z = z_of_n bits in
+  let i = if ZZ.geq z (ZZ.shift_left ZZ.one 63) then ZZ.to_int64 (ZZ.sub z two64) else ZZ.to_int64 z in
+  let r = Int64.bits_of_float (Float.tanh (Int64.float_of_bits i)) in
+  let zr = ZZ.of_int64 r in
+  n_of_z (if ZZ.sign zr < 0 then ZZ.add zr two64 else zr)
 
 let () =
   let st : anystate option ref = ref None in
@@ -62,7 +79,7 @@ let () =
         let (s', reps) = rs_step s o r [] in
         print_reports !sid !k reps; st := Some (Book s'); pending_op := None; pending_out := None
     | Some (Envs s), Some o, Some r ->
-        let (s', reps) = es_step_fn s o r [] in
+        let (s', reps) = es_step_fn lognormal tanh64 s o r [] in
         print_reports !sid !k reps; st := Some (Envs s'); pending_op := None; pending_out := None
     | _ -> () in
   let pending_mhdr : (n * int * n * n * n * bool * n list) option ref = ref None in
@@ -81,10 +98,22 @@ let () =
           (match String.split_on_char ' ' (rest line) with
            | id :: kind :: l :: seed :: t0 :: step :: tr :: _a :: ticks ->
                sid := id; k := 0; st := None; pending_op := None; pending_out := None; pending_hdr := None;
+               Hashtbl.reset ln_table;
                pending_mhdr := Some (n_of_string kind, int_of_string l, n_of_string seed, n_of_string t0,
                                      n_of_string step, tr = "1", List.map n_of_string (List.filter (fun x -> x <> "") ticks))
            | _ -> Printf.printf "REP ? 0 0\n")
       | 'F' -> Printf.printf "REP %s %d 6\n" !sid !k
+      | 'G' ->
+          (match !st with
+           | Some (Envs s) ->
+               (match es_add_agent s (nums_of (rest line)) with
+                | Some s' -> st := Some (Envs s')
+                | None -> Printf.printf "REP %s %d 0\n" !sid !k)
+           | _ -> ())
+      | 'T' ->
+          (match String.split_on_char ' ' (rest line) with
+           | [kk; pos; bits; used] -> Hashtbl.replace ln_table (kk, pos) (n_of_string bits, n_of_string used)
+           | _ -> ())
       | 'S' when !pending_mhdr <> None ->
           let obs = nums_of (rest line) in
           (match !pending_mhdr with
@@ -107,7 +136,7 @@ let () =
                     incr ops; if rs_valid s' && not (rs_ended s') then incr valid_ops;
                     print_reports !sid !k reps; st := Some (Book s'); pending_op := None; pending_out := None
                 | Some (Envs s), Some o, Some r ->
-                    let (s', reps) = es_step_fn s o r obs in
+                    let (s', reps) = es_step_fn lognormal tanh64 s o r obs in
                     incr ops; if es_valid s' && not (es_ended s') then incr valid_ops;
                     print_reports !sid !k reps; st := Some (Envs s'); pending_op := None; pending_out := None
                 | _ -> ()))
